@@ -453,7 +453,8 @@ func c06Run(w *W) {
 	// longer Eval inputs: a sub-expression that faults (or assigns) is reduced while the lexer is still ahead and about
 	// to reject a later character, or a second fault follows — all schedules
 	for _, src := range []string{"( 1 / 0 ) @", "1 / 0 + @", "( x = 1 ) @", "( 08 ) @", "1 / 0 + 08", "( 1 / 0 ) + ( 08 )", "x = 1 / 0 @", "( y ) @", "1 / 0 ) @",
-		"( x ++ ) / 0 @", "0 && ( 1 / 0 ) @", "( 1 / 0 ) ( @", "( x = 2 ) + ( 1 / 0 ) @", "1 ? ( 1 / 0 ) : @", "( 1 / 0 ) + ( y ) + @"} {
+		"( x ++ ) / 0 @", "0 && ( 1 / 0 ) @", "( 1 / 0 ) ( @", "( x = 2 ) + ( 1 / 0 ) @", "1 ? ( 1 / 0 ) : @", "( 1 / 0 ) + ( y ) + @",
+		"( 0 && 1 ) @", "( 0 && ++ x ) @", "0 ? 2 : @", "( 1 || x ) @", "0 && 1 @", "0 && @", "1 || ( 0 && @", "( 0 ? x = 1 : 2 ) @"} {
 		if !w.Mine() || w.TimeUp() {
 			continue
 		}
@@ -623,7 +624,7 @@ func racePassMain() {
 		}
 	}
 	rec()
-	tok := []string{"1", "08", "x", "=", "+", "/", "0", "++", "(", ")", "@"}
+	tok := []string{"1", "08", "x", "=", "+", "/", "0", "++", "(", ")", "@", "&&", "?", ":"}
 	var rec2 func(c []string)
 	rec2 = func(c []string) {
 		if len(c) > 0 {
@@ -722,7 +723,7 @@ func init() {
 		id:    "C06",
 		level: "model_checking",
 		rule: "stateless DFS over ALL interleavings of the hooked operations (token hand-off incl. both outcomes of an ambiguous select, cancel, here-document queue, nested lexer join, error slots, return) for every ParseCommands input of ≤ 3 (quick) / 4 (thorough) pieces over {a | ; ( ) $( $(a) ` ' ${ <<E newline #c if 3<<U(unterminated numbered here-document)}, " +
-			"15 longer inputs with preemption bound ≤ 2, the generator's lists of leaf commands and default-filled compound commands with each single-symbol deletion (preemption bound ≤ 1), every input of ≤ 2 (thorough 3) pieces additionally with the reader failing from / once at every rune index (all schedules: the call must return), and every Eval input of ≤ 4 / 5 tokens over {1 08 x y = + / 0 ++ ( ) @} plus 15 longer ones (a fault reduced while the lexer is about to reject a later character); non-trivial = inputs with more than one schedule; plus a supplementary free-running pass (GOMAXPROCS 1, 2, 16) whose results must be among the explored ones, and the same bodies under the race detector",
+			"15 longer inputs with preemption bound ≤ 2, the generator's lists of leaf commands and default-filled compound commands with each single-symbol deletion (preemption bound ≤ 1), every input of ≤ 2 (thorough 3) pieces additionally with the reader failing from / once at every rune index (all schedules: the call must return), and every Eval input of ≤ 4 / 5 tokens over {1 08 x y = + / 0 ++ ( ) @} plus 23 longer ones (a fault reduced while the lexer is about to reject a later character); non-trivial = inputs with more than one schedule; plus a supplementary free-running pass (GOMAXPROCS 1, 2, 16) whose results must be among the explored ones, and the same bodies under the race detector",
 		assume: []string{"the controller owns every synchronisation operation between the goroutines (hooks, build tag verif); mutexes are never contended because no point lies inside a critical section",
 			"unhooked unsynchronised accesses and memory-model effects are only looked at by the supplementary -race pass; silence there is not evidence of absence",
 			"executions are capped per input (quick 20 000, thorough 200 000); a capped input makes the run non-exhaustive"},
